@@ -81,6 +81,18 @@ Proof.
   exists (p_head ++ [120]). split; [apply route_head_exact|]. vm_compute. discriminate.
 Qed.
 
+Theorem param_last_snoc : forall k v ps, param_last k (ps ++ [(k, v)]) = Some v.
+Proof.
+  intros k v ps. induction ps as [|[k' v'] r IH]; cbn [app param_last].
+  - rewrite bytes_eqb_refl. reflexivity.
+  - rewrite IH. reflexivity.
+Qed.
+
+(* an earlier occurrence never matters once a later one exists *)
+Theorem param_last_decoy : forall k v w ps, param_last k ((k, w) :: ps ++ [(k, v)]) = Some v.
+Proof. intros k v w ps. cbn [param_last]. rewrite param_last_snoc. reflexivity. Qed.
+
+Print Assumptions param_last_snoc.
 Print Assumptions route_head_exact.
 Print Assumptions route_cas_exact.
 Print Assumptions route_append_exact.
